@@ -36,9 +36,9 @@ ASSUMPTIONS = [
     "a HeterogeneousLinearModel applied at another resolution uses the nearest-neighbour (cv2.INTER_NEAREST) resampling of its original label map",
 ]
 FLOORS = {
-    "quick": {"two_live_objects": 400, "clip": 300, "linear": 300, "combined_composition": 100, "combined_routing": 300, "heterogeneous_linear": 80, "heterogeneous_resolution_history": 100, "combined_routing_grouped": 100, "threshold": 150, "threshold_integer_signals": 500, "kernel_reproduces_values": 60, "kernel_values_updated": 100, "kernel_advanced_updated": 15,
+    "quick": {"two_live_objects": 400, "clip": 300, "linear": 300, "combined_composition": 100, "combined_routing": 300, "heterogeneous_linear": 80, "heterogeneous_resolution_history": 100, "combined_routing_grouped": 100, "threshold": 150, "threshold_integer_signals": 500, "kernel_reproduces_values": 60, "kernel_values_updated": 100, "kernel_supports_replaced": 25, "kernel_advanced_updated": 15,
               "kernel_numba_equals_plain_sum": 150, "polynomial_span": 5},
-    "thorough": {"two_live_objects": 4000, "clip": 3000, "linear": 3000, "combined_composition": 1000, "combined_routing": 3000, "heterogeneous_linear": 800, "heterogeneous_resolution_history": 1000, "combined_routing_grouped": 1000, "threshold": 1500, "threshold_integer_signals": 5000, "kernel_reproduces_values": 600, "kernel_values_updated": 1000, "kernel_advanced_updated": 150,
+    "thorough": {"two_live_objects": 4000, "clip": 3000, "linear": 3000, "combined_composition": 1000, "combined_routing": 3000, "heterogeneous_linear": 800, "heterogeneous_resolution_history": 1000, "combined_routing_grouped": 1000, "threshold": 1500, "threshold_integer_signals": 5000, "kernel_reproduces_values": 600, "kernel_values_updated": 1000, "kernel_supports_replaced": 250, "kernel_advanced_updated": 150,
                  "kernel_numba_equals_plain_sum": 1500, "polynomial_span": 5},
 }
 SHARD_TIMEOUT = {"quick": 1500, "thorough": 7200}
@@ -384,6 +384,24 @@ def run_shard(spec, R):
                             lambda: {**case, "after": f"{how}(values)", "prescribed": newv.tolist(), "got": np.asarray(at2, float).tolist()},
                             key="C14:kernel_values_reordered_once", group=f"values_update/{kind}")
                     R.count("kernel_values_updated")
+        # the same object set up a second time with other supports of the same number (and other values)
+        if ok and kc % 2 == 0:
+            for _ in range(50):
+                sup2 = rng.uniform(0.05, 0.95, size=(ns, 3)).astype(np.float32)
+                X2b = np.array([[kern(sup2[i], sup2[j]) for j in range(ns)] for i in range(ns)], dtype=float)
+                if np.linalg.cond(X2b) <= 1e3:
+                    break
+            vals2 = rng.uniform(0, 1, size=ns)
+            ok_s, _ = R.guarded("kernel_reproduces_values", lambda: ki.update(supports=sup2.copy(), values=vals2.copy()))
+            if ok_s:
+                ok_s, at3 = R.guarded("kernel_reproduces_values", lambda: ki(sup2.copy()))
+            if ok_s:
+                R.check(np.shape(at3) == (ns,) and bool(np.all(np.abs(np.asarray(at3, float) - vals2) <= 1e-3)), "kernel_reproduces_values",
+                        lambda: {**case, "after": "update(supports, values) with the same number of supports", "prescribed": vals2.tolist(), "got": np.asarray(at3, float).tolist()},
+                        group=f"supports_replaced/{kind}")
+                R.count("kernel_supports_replaced")
+            # restore the original set-up for the clauses below
+            ki.update(supports=sup.copy(), values=vals.copy())
         # fixed + variable supports (AdvancedKernelInterpolation): all prescribed values are reproduced, also after the
         # variable values alone are replaced
         if ns >= 2 and kc % 2 == 1:
